@@ -5,6 +5,9 @@ package detect
 // n: requested length (symbolic over 0 .. 2^31-1); the four stream kinds make the choice of m observable natively
 func H_C11_single() {
 	n := vInt(0, 1<<31-1)
+	// an earlier call with any other length must not influence the following ones
+	n0 := vInt(0, 1<<31-1)
+	SingleDetect(&vStream{failAt: -1, kind: 1}, n0)
 	for kind := 1; kind <= 4; kind++ {
 		src := &vStream{failAt: -1, kind: kind}
 		ok, err := SingleDetect(src, n)
